@@ -71,6 +71,38 @@ def body(c, ctx):
         ctx.fail('operand_modified', '', **sig)
 
 
+def large_cases(tier):
+    return [dict(cls='MeshTri', n=217), dict(cls='MeshQuad', n=217)] + ([dict(cls='MeshTri', n=301)] if tier == 'thorough' else [])
+
+
+def body_large(c, ctx):
+    """more than 2^15.5 vertices (products of two vertex numbers exceed int32): named sides and a named half after one uniform step,
+    judged with vectorised predicates"""
+    import skfem
+    ctx.nt(True)
+    ctx.cls('large:' + c['cls'])
+    n = c['n']
+    x = np.linspace(0.0, 1.0, n)
+    sides = {'left': lambda p: p[0] == 0.0, 'right': lambda p: p[0] == 1.0, 'bottom': lambda p: p[1] == 0.0, 'top': lambda p: p[1] == 1.0}
+    m = getattr(skfem, c['cls']).init_tensor(x, x).with_boundaries(dict(sides)).with_subdomains({'low': lambda p: p[1] < 0.5})
+    r = m.refined()
+    sig = dict(mesh=type(m).__name__, large=True)
+    nl = 3 if c['cls'] == 'MeshTri' else 4
+    if r.nelements != 4 * m.nelements or r.p.shape[1] != (2 * n - 1) ** 2:
+        ctx.fail('cell_count', f'{r.nelements} cells, {r.p.shape[1]} vertices', **sig)
+        return
+    for name, pred in sides.items():
+        got = np.sort(np.asarray(r.boundaries[name]).astype(np.int64))
+        on = pred(r.p)
+        want = np.nonzero(on[r.facets[0]] & on[r.facets[1]])[0]
+        if not np.array_equal(got, want):
+            ctx.fail('boundary_facets', f'{name}: {len(got)} named, {len(want)} on that side, {len(np.setdiff1d(got, want))} wrong', **sig)
+            return
+    cen = r.p[:, r.t[:nl]].mean(1)
+    if not np.array_equal(np.sort(r.subdomains['low']), np.nonzero(cen[1] < 0.5)[0]):
+        ctx.fail('subdomain_cells', 'low', **sig)
+
+
 PROP = Prop(
     'C12', 'uniform refinement preserves domain, conformity and named regions',
     rule=('straight-sided meshes of all refinable classes (first and second order; Delaunay, tensor, split, holes, any '
@@ -83,6 +115,7 @@ PROP = Prop(
     assumptions=['prisms have no uniform refinement (NotImplementedError): skipped and counted',
                  'boundary tags are judged geometrically in 1-D/2-D; 3-D classes drop them (warning required)',
                  'tolerances 1e-10 relative on measures, 1e-9 on containment'],
-    subs=[Sub('uniform', body, strategy=case, quick=500, thorough=10000)],
+    subs=[Sub('uniform', body, strategy=case, quick=500, thorough=10000),
+          Sub('large', body_large, cases=large_cases, max_shards=4)],
     design_ref='DESIGN.md section 6, C12')
 PROP.rule += ('. Added in round 2: triangle meshes with sort_t=False and meshes returned by oriented().')
